@@ -1,8 +1,8 @@
 SPECIFICATION TSpec
 CONSTANTS
-  Members = {"p", "q", "r"}
-  Vals = {1, 2, 3, 4, 5, 6, 7, 8, 9}
-  HwMax = 7
+  Members = {"p", "q"}
+  Vals = {1, 2, 3, 4}
+  HwMax = 3
   HwModes = {"clip", "refuse"}
   Excs = {"badvalue", "hardware", "other"}
 CONSTRAINT Track
